@@ -400,6 +400,10 @@ fn main() {
     match args[1].as_str() {
         "golden-gen" => golden::generate(&rest[0], ctx.seed),
         "golden-deep" => golden::generate_deep(&rest[0], ctx.seed, rest.get(1).and_then(|x| x.parse().ok()).unwrap_or(40)),
+        "c04-verify" => {
+            let ok = golden::verify_model_written(&rest[0]);
+            std::process::exit(if ok { 0 } else { 1 });
+        }
         "golden-check" => {
             let ok = golden::check(&rest[0], &ctx);
             std::process::exit(if ok { 0 } else { 1 });
